@@ -23,10 +23,14 @@ type adversary struct {
 	touts  []hotstuff.TimeoutMsg
 	blocks []*hotstuff.Block // blocks crafted by the adversary
 	lies   map[hotstuff.Hash]*hotstuff.Block
+	fz     *fuzzer
 }
 
 func newAdversary(w *World) *adversary {
 	a := &adversary{w: w, lies: map[hotstuff.Hash]*hotstuff.Block{}}
+	if len(w.plan.Inject) > 0 {
+		a.fz = newFuzzer(w)
+	}
 	w.hooks.onHandle = append(w.hooks.onHandle, func(nd *Node, ev any) {
 		if nd.honest {
 			return
@@ -569,5 +573,3 @@ func (a *adversary) onFetch(peer, asker *Node, h hotstuff.Hash) *hotstuff.Block 
 }
 
 func (a *adversary) inject(in Inject) { a.injectWire(in) }
-
-func (a *adversary) injectWire(in Inject) {}
